@@ -265,6 +265,12 @@ class SymbolicExpression(Generic[T], ABC):
     def _name_(self) -> str:
         pass
 
+    def _start_evaluation_(self) -> None:
+        """
+        Called on every node of a query when the query starts to be evaluated: forget what earlier evaluations
+        recorded on this node.
+        """
+
     @property
     def _all_nodes_(self) -> List[SymbolicExpression]:
         return [self] + self._descendants_
@@ -499,6 +505,8 @@ class ResultQuantifier(CanBehaveLikeAVariable[T], ABC):
         This is the exposed evaluation method for users.
         """
         SymbolGraph().remove_dead_instances()
+        for node in self._all_nodes_:
+            node._start_evaluation_()
         yield from map(self._process_result_, self._evaluate__())
 
     def _evaluate__(
